@@ -268,7 +268,17 @@ func (w *world) apply(op string) {
 			return
 		}
 		cpub, _ := crypto.NewECPoint(tss.S256(), child.PublicKey.X, child.PublicKey.Y)
+		// the adjusted copies are the key data this session is given: signing must not modify them either
+		var cb []string
+		for i := range copies {
+			cb = append(cb, statehash.ValueHash(&copies[i]))
+		}
 		w.sign([]int{0, 2}, false, "", delta, copies, cpub, "offset")
+		for i := range copies {
+			if statehash.ValueHash(&copies[i]) != cb[i] {
+				w.viol("key-data-given-to-the-session-modified/by-sign+offset", fmt.Sprintf("party %d's key data (the adjusted copy handed to NewLocalPartyWithKDD) changed during the session", i))
+			}
+		}
 	}
 	after := w.hashes()
 	for i := range before {
